@@ -6,6 +6,7 @@ CONSTANTS
   Cap = 1
   DropParentCloseW = FALSE
   FailAt = 0
+  CapReadMode = "concurrent"
   Capture = TRUE
 INVARIANT ExecFds
 INVARIANT ShellFdsRestored
